@@ -1,5 +1,6 @@
 """C11 — an export writes exactly the root's and its dependencies' files (structural clauses)."""
 from rules import export_rules as E
+from rules import templates as T
 
 ASSUMPTIONS = ["the directory-form/file-form decision inside the generated output_path() is a run-time string test and is not decided"]
 
@@ -13,4 +14,5 @@ def run(ctx):
             if fs != "default":
                 r.rule += "@" + fs
         out += res
+    out.append(T.output_path_rule(ctx.syn, "C11"))
     return out
